@@ -61,6 +61,10 @@ func Create() *Builder {
 // iFace 必须是指针类型, 比如 i 为 interface 类型变量, iFace 传递&i
 func (b *Builder) Interface(iFace interface{}) *CachedInterfaceMocker {
 	mKey := reflect.TypeOf(iFace).String()
+	if v := reflect.ValueOf(iFace); v.Kind() == reflect.Ptr {
+		// 同一接口类型的不同变量各自独立 mock, 缓存 key 需要区分变量地址
+		mKey = fmt.Sprintf("%s_%d", mKey, v.Pointer())
+	}
 	if mocker, ok := b.mockers[mKey]; ok && !mocker.Canceled() {
 		b.reset2CurPkg()
 		return mocker.(*CachedInterfaceMocker)
